@@ -216,7 +216,37 @@ func checkReplyModel(r *Result, o replyOpts) []Violation {
 					mismatch("want a multimedia response 0x8800")
 					return vs
 				}
-				if len(q.Body) >= 36 { // a shorter body lacks the message's fixed fields: out of the property's domain
+				if q.Complete && q.SubSum > 1 {
+					// a reassembled message: the id is the one in the bytes the terminal sent (packet 1 of one of this
+					// connection's transfers of that message), whatever body the server handed to the callbacks
+					// (judged only when the connection sent a single transfer of that message: packets of two
+					// transfers of one id may legitimately be combined, which is C05's subject)
+					okID, cands, same := false, 0, 0
+					for _, tr := range r.Plan.Expect.Xfers {
+						if tr.Conn == ci && tr.ID == q.ID {
+							same++
+						}
+					}
+					for _, tr := range r.Plan.Expect.Xfers {
+						if same != 1 || tr.Conn != ci || tr.ID != q.ID || tr.Total != int(q.SubSum) {
+							continue
+						}
+						var whole []byte
+						for _, pb := range tr.Bodies {
+							whole = append(whole, pb...)
+						}
+						if len(whole) >= 36 {
+							cands++
+							if b.MediaID == uint32(whole[0])<<24|uint32(whole[1])<<16|uint32(whole[2])<<8|uint32(whole[3]) {
+								okID = true
+							}
+						}
+					}
+					if cands > 0 && !okID {
+						mismatch(fmt.Sprintf("multimedia id %d is not the id of any sub-packaged 0x0801 this terminal sent", b.MediaID))
+						return vs
+					}
+				} else if len(q.Body) >= 36 { // a shorter body lacks the message's fixed fields: out of the property's domain
 					want := uint32(q.Body[0])<<24 | uint32(q.Body[1])<<16 | uint32(q.Body[2])<<8 | uint32(q.Body[3])
 					if b.MediaID != want {
 						mismatch(fmt.Sprintf("multimedia id %d, want %d", b.MediaID, want))
@@ -434,7 +464,13 @@ func genC06(seed uint64, tier string, idx int) *Plan {
 				fr, tr := g.transferFrames(ci, id, 1+g.r.intn(5), 0, g.r.chance(50)) // a "transfer" of one packet is legal
 				if id == 0x0801 {
 					// keep the multimedia id field inside packet 1 well-formed: 36+ bytes in the first packet
-					fr, tr = g.transferFrames(ci, 0x0200, 2+g.r.intn(4), 0, g.r.chance(50))
+					if tr.Total >= 2 && g.r.chance(60) {
+						b := g.r.bytes(36 + g.r.intn(24))
+						tr.Bodies[0] = b
+						fr[0] = g.mkSubFrame(ci, id, tr.Serial1, uint16(tr.Total), 1, b)
+					} else {
+						fr, tr = g.transferFrames(ci, 0x0200, 2+g.r.intn(4), 0, g.r.chance(50))
+					}
 				}
 				p.Expect.Xfers = append(p.Expect.Xfers, tr)
 				for k := range fr {
